@@ -15,6 +15,11 @@ Decided clauses:
   R19.5 randombytes_close() on the default generator resets the stream state only after it really closed the
         /dev/urandom descriptor; on the getrandom() path the state (and with it the lock-free lazy initialiser) is
         left alone.
+  R19.6 the selectable randombytes_internal backend probes its entropy source once per process: a function of that unit is
+        "unguarded" when it stores to a process-global (non-thread-local) object, or calls an unguarded function of the unit,
+        outside a zero-test of a *process-global* flag; no function stored in the backend's vtable may be unguarded. (A gate keyed
+        on the thread-local stream state re-runs the probe, unlocked, on every thread's first use.) One named exception:
+        storing the result of getpid() (same value in every thread).
 NOT decided: absence of races inside libc / the OS; results equal to sequential runs (follows
 from R19.2 for distinct buffers, but is not separately proved).
 """
@@ -242,6 +247,7 @@ def run(ctx, chk):
     for f in ri:
         w |= set(cg.globals_written_at(f))
     chk.note("non-default randombytes_internal backend (not the default generator the property speaks of) writes: %s" % sorted(w))
+    internal_backend_rule(prog, chk, cg)
     # ---- R19.5 closing the default generator does not re-arm its (unsynchronised) lazy initialiser -------------------------
     # randombytes_sysrandom_stir_if_needed() runs the initialiser whenever stream.initialized == 0, without a lock; that is
     # safe only because the flag is set once inside sodium_init(). randombytes_close() may therefore reset the stream state
@@ -265,3 +271,66 @@ def run(ctx, chk):
                        "the lock-free lazy initialiser for concurrent callers" % T.show(e.addr, cl), path=None if okc else p,
                        key="R19.5 randombytes_sysrandom_close")
         chk.floor("R19.5", "stores to the stream state in randombytes_sysrandom_close", n5, 2)
+
+
+def internal_backend_rule(prog, chk, cg):
+    """R19.6: process-global state of the internal generator is written only under a process-global once-flag"""
+    fns = [f for f in prog.functions() if f.unit.startswith("randombytes/internal/")]
+    if not fns:
+        if chk.relaxed:
+            return
+        raise AnalysisBroken("R19.6: no function of randombytes/internal/ in the build")
+
+    def is_tls(f, name):
+        g = prog.global_def(f, name)
+        return g is None or bool(g[1].get("tls")) or bool(g[1].get("const"))
+    paths = {f.key: cm.paths(prog, f) for f in fns}
+    unguarded = {}
+    changed = True
+    rounds = 0
+    while changed and rounds < 6:
+        changed = False
+        rounds += 1
+        for f in fns:
+            if f.key in unguarded:
+                continue
+            why = None
+            for p in paths[f.key]:
+                for e in p.events:
+                    hit = None
+                    if e.kind == "store":
+                        r = T.root(e.addr)
+                        if r[0] == "g" and not is_tls(f, r[1]):
+                            if e.val[0] == "call" and any(c.res == e.val and c.callee_name() == "getpid" for c in p.calls("getpid")):
+                                continue          # the process id: the same value from every thread
+                            hit = "stores to the process-global `%s` at %s" % (r[1], f.loc(e.iid))
+                    elif e.kind == "call" and e.callee[0] == "fn" and e.callee[1].key in unguarded:
+                        hit = "calls %s at %s" % (e.callee[1].sname, f.loc(e.iid))
+                    if hit is None:
+                        continue
+                    guard = [x for x in p.events[:e.idx] if x.kind == "load" and T.root(x.addr)[0] == "g" and
+                             not is_tls(f, T.root(x.addr)[1]) and p.facts.zeroness(x.res) == "Z"]
+                    if not guard:
+                        why = hit
+                        break
+                if why:
+                    break
+            if why:
+                unguarded[f.key] = why
+                changed = True
+    chk.analysed["R19.6: unguarded writers of process-global state in randombytes/internal"] = sorted(
+        "%s: %s" % (cg.by_key[k].sname, w) for k, w in unguarded.items())
+    n = 0
+    for (unit, gname), slots in cg.global_fnptr.items():
+        if not unit.startswith("randombytes/internal/"):
+            continue
+        for fname in slots.values():
+            t = prog.fn(fname, unit)
+            if t is None:
+                continue
+            n += 1
+            ok = t.key not in unguarded
+            chk.ob("R19.6", t, "backend entry point writes process-global generator state only under the process-wide once-flag", ok,
+                   detail="" if ok else "%s %s without a preceding zero-test of a process-global flag: every thread's first use re-runs "
+                   "the entropy-source probe concurrently" % (t.sname, unguarded[t.key]), key="R19.6 %s" % t.sname)
+    chk.floor("R19.6", "entry points of the randombytes_internal backend", n, 5)
